@@ -315,8 +315,17 @@ def _fp(t):
         return f(kids[0]) * f(kids[1])
     if name == "uinv":
         return 1.0 / f(kids[0])
+    if _NUM_ENV[0] is not None and name in FUNC_EVAL:
+        # a library result with a defining contract (argmax): evaluate it by its definition so that the instantiated
+        # contract facts hold in the numeric world
+        vals = [f(v) for v in FUNC_EVAL[name](list(kids))]
+        return max(range(len(vals)), key=lambda i: (vals[i], -i))
     args = tuple(round(f(c), 9) if not isinstance(f(c), bool) else f(c) for c in kids)
     if _NUM_ENV[0] is not None:
+        if t.sort() == z3.IntSort():
+            return int(_hashf((name, args, _NUM_ENV[0][1]), 0, 4))      # an integer-valued function stays integer-valued
+        if t.sort() == z3.BoolSort():
+            return _hashf((name, args, _NUM_ENV[0][1]), 0, 1) > 0.5
         return _hashf((name, args, _NUM_ENV[0][1]), -1.5, 1.5)
     return _hashf((name, args))
 
@@ -490,7 +499,13 @@ def valid(e, extra=()):
     if key in CTX.cache:
         return CTX.cache[key][0]
     goal = z3.Not(e)
-    r, _ = check_sat(relevant(CTX.all_hyps() + list(extra), [goal]) + [goal])
+    hy = relevant(CTX.all_hyps() + list(extra), [goal])
+    if not _has_nl_real_mul(e) and any(_has_nl_real_mul(h) for h in hy):
+        # a linear question under non-linear hypotheses: ask it with multiplication abstracted ('unsat' is sound, and
+        # this helper treats everything else as "not valid" anyway) -- never the slow NRA query
+        r, _ = check_sat([abstract_mul(h) for h in hy] + [goal], RLIMIT // 8)
+    else:
+        r, _ = check_sat(hy + [goal])
     res = (r == "unsat")
     CTX.cache[key] = (res, e, tuple(CTX.hyps), tuple(extra))   # keep terms alive (ids are re-used otherwise)
     return res
@@ -609,6 +624,57 @@ def prove_by_cases(goal, extra=(), max_leaves=600):
         CTX.solver_s += 0.0
 
 
+INSTANTIATORS = {}     # declaration name -> (callable(args) -> list of facts): contract axioms of uninterpreted library
+                       # results (argmax), instantiated for every application that occurs in a goal (trigger = the application)
+
+
+FUNC_EVAL = {}         # declaration name -> callable(args) -> list of value terms; the function is the argmax of them
+FINITE_RANGE = {}      # declaration name -> P: the function's values lie in range(P) (part of its instantiated contract)
+_IN_SPLIT = [False]
+
+
+def _finite_apps(goal):
+    out, seen, ids = [], set(), set()
+    todo = [goal]
+    while todo:
+        x = todo.pop()
+        if x.get_id() in seen:
+            continue
+        seen.add(x.get_id())
+        if z3.is_app(x):
+            if x.num_args() > 0 and x.decl().name() in FINITE_RANGE and x.get_id() not in ids:
+                ids.add(x.get_id())
+                out.append((x, FINITE_RANGE[x.decl().name()]))
+            todo.extend(x.children())
+    return out
+
+
+def instantiate_axioms(goal):
+    if not INSTANTIATORS:
+        return
+    done = CTX.cache.setdefault("axiom_instances", set())
+    todo = [goal]
+    seen = set()
+    while todo:
+        x = todo.pop()
+        if not z3.is_expr(x) or x.get_id() in seen:
+            continue
+        seen.add(x.get_id())
+        if z3.is_app(x):
+            nm = x.decl().name()
+            if nm in INSTANTIATORS and x.num_args() > 0:
+                key = (nm, tuple(z3.simplify(a).get_id() for a in x.children()))
+                if key not in done:
+                    done.add(key)
+                    CTX.cache.setdefault("axiom_keep", []).append(x)
+                    for f in INSTANTIATORS[nm]([z3.simplify(a) for a in x.children()]):
+                        f = z3.simplify(f)
+                        if not z3.is_true(f):
+                            CTX.path.append(f)
+                            todo.append(f)
+            todo.extend(x.children())
+
+
 def prove_goal(goal, extra=()):
     """strategy: (1) the multiplication-abstracted query with the full budget (cheap, sound when it says valid);
     (2) case analysis on ite conditions; (3) the real query (also the one that yields counter-models)"""
@@ -617,6 +683,26 @@ def prove_goal(goal, extra=()):
     goal = z3.simplify(goal)
     if z3.is_true(goal):
         return "proved", None
+    instantiate_axioms(goal)
+    if FINITE_RANGE and not _IN_SPLIT[0]:
+        apps = _finite_apps(goal)
+        n = 1
+        for _, P in apps:
+            n *= P
+        if apps and n <= 512:
+            # complete case analysis on the values of finite-range library results (argmax): every leaf fixes them
+            import itertools as _it
+            _IN_SPLIT[0] = True
+            try:
+                for combo in _it.product(*[range(P) for _, P in apps]):
+                    eqs = [a == v for (a, _), v in zip(apps, combo)]
+                    g2 = z3.simplify(z3.substitute(goal, *[(a, z3.IntVal(v)) for (a, _), v in zip(apps, combo)]))
+                    st, m = prove_goal(g2, list(extra) + eqs)
+                    if st != "proved":
+                        return st, m
+                return "proved", None
+            finally:
+                _IN_SPLIT[0] = False
     natoms = len(_cond_atoms(goal))
     if natoms < 6:
         st, m = refute_or_prove(goal, extra, rlimit=RLIMIT // 4 if natoms else None)
@@ -651,9 +737,10 @@ def refute_or_prove(e, extra=(), rlimit=None):
         return "proved", None
     if z3.is_eq(e) and e.arg(0).sort() != z3.BoolSort() and poly_zero(e.arg(0) - e.arg(1)):
         return "proved", None
+    instantiate_axioms(e)
     goal = z3.Not(e)
     hy = relevant(CTX.all_hyps() + list(extra), [goal])
-    if _has_nl_real_mul(e):
+    if _has_nl_real_mul(e) or any(_has_nl_real_mul(h) for h in hy):
         # first try with real multiplication abstracted to an uninterpreted commutative function: 'unsat' is sound
         for alt in (False, True):
             _ABS_ALT[0] = alt
@@ -675,7 +762,13 @@ def refute_or_prove(e, extra=(), rlimit=None):
 
 
 def feasible(extra=()):
-    r, _ = check_sat(CTX.all_hyps() + list(extra))
+    """False only if the context is PROVABLY contradictory (used to skip empty cases); with non-linear hypotheses the
+    question is asked with multiplication abstracted (unsat there is unsat here), never as an NRA query"""
+    hy = CTX.all_hyps() + list(extra)
+    if any(_has_nl_real_mul(h) for h in hy):
+        r, _ = check_sat([abstract_mul(h) for h in hy], RLIMIT // 8)
+    else:
+        r, _ = check_sat(hy)
     return r != "unsat"
 
 
